@@ -306,6 +306,30 @@ def tables_after_use(ctx):
     ctx.engine("tables-after-use", odd_names=len(odd))
 
 
+def content_rules_implemented(ctx):
+    """'only implemented content-rule names', asked of the code rather than of a list: for EVERY rule of the table
+    (also rules no element maps to) a node with canonical content is validated in both modes - the answer must never be
+    'content rule not recognised'"""
+    from vf import build as _b
+    n = 0
+    for rn in sorted(R.rules_dict):
+        n += 1
+        for mode in (0, 1):
+            Node.store.clear()
+            try:
+                node_ = _b.make_node(rn)
+                errs = [] if mode else None
+                R.Rule(rn).validate_rule(node_, errs)
+                codes = [e[0].name for e in (errs or []) if isinstance(e, tuple) and e]
+            except Exception as ex:  # noqa
+                codes = [type(ex).__name__]
+            if any(c in ("UNKNOWN_CONTENT_RULE", "UnknownContentRuleError") for c in codes):
+                ctx.fail(f"content-rule-not-implemented:{rn}", {"rule": rn},
+                         f"rule {rn} names content rules {R.rules_dict[rn][2].get('content_rules')}, validation answers {codes}")
+    ctx.bulk(n, n)
+    ctx.engine("content-rules-probed", rules=n, exhaustive=True)
+
+
 def pairs_task(ctx, pairs):
     """every (element, permitted child) pair of the shipped tables in a minimal valid tree of its own: what single-node
     validation of the parent allows, whole-tree validation has to be able to accept - in that place, under that parent"""
@@ -336,6 +360,7 @@ def pairs_task(ctx, pairs):
 
 def run(ctx):
     tables_task(ctx, None)
+    content_rules_implemented(ctx)
     T0 = treegen.tables()
     pairs = [(h, e) for h in sorted(T0.known) for e in T0.usable(T0.known[h])]
     ctx.pmap(pairs_task, [pairs[i::16] for i in range(16) if pairs[i::16]])
@@ -380,6 +405,12 @@ def replay(case):
         if "rule" in case:
             if case["rule"] in R.rules_dict:
                 check_rule(case["rule"])
+                from vf.runner import Ctx
+                c = Ctx(ID, "quick", 1)
+                content_rules_implemented(c)
+                hit = [f["message"] for b, f in c.failures.items() if b.endswith(":" + case["rule"])]
+                if hit:
+                    return hit[0]
             return None
         if "element" in case:
             if case["element"] in R.node_mappings:
